@@ -306,9 +306,16 @@ def rule_replay(R):
 
 def rule_arena(R):
     """what is retransmitted is what was accepted: every mutable view of the arena handed out after a packet was retained
-    starts behind all retained bytes (`buf[used..]` after a dominating compact) -- shared with C17"""
-    from .c17 import rule_base as _r
-    _r(R)
+    starts behind all retained bytes (`buf[used..]` after a dominating compact); nothing but the encoders, the DUP patch
+    and compaction writes the arena; compaction moves each entry's own bytes and keeps its bookkeeping; the entry records
+    where the encoder put the packet and the step reads it back from there -- the clauses of C17, which are also necessary
+    for "otherwise byte-identical content"""
+    from . import c17
+    c17.rule_base(R)
+    c17.rule_writers(R)
+    c17.rule_compact(R)
+    c17.rule_wire(R)
+    c17.rule_used(R)
 
 
 def run(R):
